@@ -559,3 +559,13 @@ def install(cfg):
         if is_plain(data):
             return api.spec_hash(name, data)
         return interp.mk("vbytes", TC.Hash(z3.StringVal(name), interp.bytes_term(data)))
+
+    @cfg.stub(api.spec_b64u_ok_text)
+    def spec_b64u_ok_text(interp, s_):
+        if is_plain(s_):
+            return api.spec_b64u_ok_text(s_)
+        if not isinstance(s_, SVal):
+            return False
+        t = S.utf8_encode(interp.ctx, A["s"](s_.t))
+        padded = z3.Concat(t, S.rep(interp.ctx, z3.StringVal("="), (-z3.Length(t)) % 4))
+        return boolval(interp, z3.And(is_tag(s_.t, "vstr"), z3.Not(z3.Contains(t, z3.StringVal("+"))), z3.Not(z3.Contains(t, z3.StringVal("/"))), S.PyB64Ok(padded)))
